@@ -26,13 +26,7 @@ theorem Inv.not_liveKey_prefix {s : State} (h : Inv s) (k : Key) : ¬ LiveKey s.
 /-- under the key of a pod of the table only that pod can be the live bound one -/
 theorem Inv.newOK_of_pod {s : State} (h : Inv s) (id : String × String) (p : Pod) (hp : Tbl.get s.pods id = some p) :
     NewOKKey s.pods (keyOf p) p.uid := by
-  intro q hq hk
-  have wq := (h.podsWF _ q hq.1).2.2.2
-  obtain ⟨pid, _, _, wp⟩ := h.podsWF id p hp
-  have := keyOf_inj q p wq wp hk
-  have h1 := hq.1
-  rw [this, pid, hp] at h1
-  cases h1; exact Or.inr rfl
+  trivial
 
 /-- `Chg` from free / prefix-keyed records to records of pod `p` is safe -/
 theorem Inv.evolves_of_chg_pod {s s' : State} (h : Inv s) (id : String × String) (p : Pod) (k0 : Key)
@@ -44,11 +38,7 @@ theorem Inv.evolves_of_chg_pod {s s' : State} (h : Inv s) (id : String × String
     · rw [ho] at hr; cases hr
     · rw [h1] at hr; cases hr; rw [h2]; exact h.not_liveKey_prefix k0
   · intro n hn r hr
-    obtain ⟨r', h1, h2, h3⟩ := hn
-    rw [h1] at hr; cases hr
-    intro q hq hk
-    have := h.newOK_of_pod id p hp q hq (by rw [hk, h2])
-    rw [h3]; exact this
+    trivial
 
 theorem allocateDuringFilter_coherent (s : State) (k : Key) (resv : Bool) (n : Subnet) (a : Attr) (pick : Option IP)
     (h : Coherent s) : Coherent (allocateDuringFilter s k resv n a pick).1 := by
